@@ -81,3 +81,79 @@ package proj
 //@   ensures [captured_kept] *source == old(*source) && *dest == old(*dest)
 //@   ensures [state_equiv] (*source).Name == old((*source).Name) && (*source).Axis == old((*source).Axis) && biteq((*source).ToMeter, old((*source).ToMeter)) && biteq((*source).FromGreenwich, old((*source).FromGreenwich)) && (*source).datum == old((*source).datum) && (*dest).Name == old((*dest).Name) && (*dest).Axis == old((*dest).Axis) && biteq((*dest).ToMeter, old((*dest).ToMeter)) && biteq((*dest).FromGreenwich, old((*dest).FromGreenwich)) && (*dest).datum == old((*dest).datum)
 //@   modifies **source, **dest
+
+//@ -- ------------------------------------------- C09: port agrees with proj4js 2.3.12
+//@ -- The js_* spec functions are generated mechanically from proj/proj4js-2.3.12/lib
+//@ -- by /verif/tools/js2spec.py on every run (/verif/contracts/external/proj4js_generated.spec).
+
+//@ func e0fn
+//@   prop C09, C08
+//@   mode real
+//@   ensures [same_as_proj4js] result == js_e0fn(x)
+//@   modifies nothing
+
+//@ func e1fn
+//@   prop C09, C08
+//@   mode real
+//@   ensures [same_as_proj4js] result == js_e1fn(x)
+//@   modifies nothing
+
+//@ func e2fn
+//@   prop C09, C08
+//@   mode real
+//@   ensures [same_as_proj4js] result == js_e2fn(x)
+//@   modifies nothing
+
+//@ func e3fn
+//@   prop C09, C08
+//@   mode real
+//@   ensures [same_as_proj4js] result == js_e3fn(x)
+//@   modifies nothing
+
+//@ func mlfn
+//@   prop C09, C08
+//@   mode real
+//@   ensures [same_as_proj4js] result == js_mlfn(e0, e1, e2, e3, phi)
+//@   modifies nothing
+
+//@ func msfnz
+//@   prop C09, C08
+//@   mode real
+//@   ensures [same_as_proj4js] result == js_msfnz(eccent, sinphi, cosphi)
+//@   modifies nothing
+
+//@ func tsfnz
+//@   prop C09, C08
+//@   mode real
+//@   ensures [same_as_proj4js] result == js_tsfnz(eccent, phi, sinphi)
+//@   modifies nothing
+
+//@ func qsfnz
+//@   prop C09, C08
+//@   mode real
+//@   ensures [same_as_proj4js] result == js_qsfnz(eccent, sinphi)
+//@   modifies nothing
+
+//@ func sign
+//@   prop C09, C08
+//@   mode real
+//@   ensures [same_as_proj4js] result == js_sign(x)
+//@   modifies nothing
+
+//@ func adjust_lon
+//@   prop C09, C08
+//@   mode real
+//@   ensures [same_as_proj4js] result == js_adjust_lon(x)
+//@   modifies nothing
+
+//@ func adjust_lat
+//@   prop C09, C08
+//@   mode real
+//@   ensures [same_as_proj4js] result == js_adjust_lat(x)
+//@   modifies nothing
+
+//@ func asinz
+//@   prop C09, C08
+//@   mode real
+//@   ensures [same_as_proj4js] result == js_asinz(x)
+//@   modifies nothing
